@@ -127,7 +127,9 @@ class DataFrameInternal:
             ([i] for i in range(start, end, step)),
             numSlices=numPartitions
         )
-        return DataFrameInternal(sc, rdd, ["id"], True)
+        # the schema does not depend on the data: an empty range has it too
+        schema = StructType([StructField("id", LongType(), True)])
+        return DataFrameInternal(sc, rdd, ["id"], True, schema)
 
     def count(self):
         return self._rdd.count()
